@@ -22,6 +22,8 @@ CONF_INV = ["Inv_C08", "Inv_C11", "Inv_C06", "Inv_C02", "Inv_C01", "Inv_C19", "I
 # ---- bounded configurations of Raft.tla (measured: see evidence model_runs; ~50k generated states/s on 16 cores)
 ELECT_Q = {"name": "election-3n-2e", "consts": {"MaxTerm": 3, "MaxLog": 3, "MaxInflight": 0, "MaxElections": 2, "MaxCrash": 0},
            "invariants": ["Inv_C01", "Inv_C05", "Inv_C17a", "Inv_C11"], "timeout": 900}
+ELECT_Q1 = {"name": "election-3n-1e-repl", "consts": {"MaxTerm": 3, "MaxLog": 3, "MaxInflight": 1, "MaxElections": 1, "MaxCrash": 0, "MaxCmds": 0},
+            "invariants": ["Inv_C01", "Inv_C05", "Inv_C17a", "Inv_C11"], "timeout": 900}
 ELECT_2N = {"name": "election-2n-crash", "consts": {"Node": "{n1, n2}", "InitVoters": "{n1, n2}", "MaxTerm": 4, "MaxLog": 4, "MaxInflight": 0, "MaxElections": 3, "MaxCrash": 2},
             "invariants": ["Inv_C01", "Inv_C05", "Inv_C17a"], "timeout": 900}
 REPL_Q3 = {"name": "replication-3n", "consts": {"MaxTerm": 2, "MaxLog": 2, "MaxInflight": 1, "MaxElections": 1, "MaxCmds": 0, "MaxCrash": 0},
@@ -119,9 +121,9 @@ def plan(preds, mcq, mct, attacks, sim=("core",), level="model_checking", assump
 
 
 PLANS = {
-    "C01": plan(["C01_ElectionSafety"], [ELECT_Q, ELECT_2N], [ELECT_T],
+    "C01": plan(["C01_ElectionSafety"], [ELECT_Q1, ELECT_2N], [ELECT_Q, ELECT_T],
                 ["G_OneVote", "G_VoteQuorum", "G_StaleTermVote", "G_StepDownOnTerm", "G_PersistVote", "FixD1", "G_StaleTermAppend"], sim=("core", "conf")),
-    "C05": plan(["C05_OneVotePerTerm", "C05_TermMonotone", "C05_GrantDurable"], [ELECT_Q, ELECT_2N], [ELECT_T],
+    "C05": plan(["C05_OneVotePerTerm", "C05_TermMonotone", "C05_GrantDurable"], [ELECT_Q1, ELECT_2N], [ELECT_Q, ELECT_T],
                 ["G_OneVote", "G_PersistVote", "G_StaleTermVote", "FixD1", "G_StepDownOnTerm"]),
     "C02": plan(["C02_CommittedAgree", "C02_LeaderCompleteness", "C02_CommittedStable"], [REPL_Q3, REPL_Q2], [REPL_T3, REPL_T2],
                 ["G_UpToDate", "G_LeaderOwnTerm", "G_FollowerOwnTerm", "G_TruncateOnConflict", "G_ConsistencyCheck", "G_MajorityOfVoters"], sim=("core", "conf")),
@@ -151,7 +153,7 @@ PLANS = {
                 [XFER_Q1, XFER_Q2], [XFER_T], ["G_XferCaughtUp", "G_XferBlocksEntries", "G_XferSuccessOnHigherTerm", "D21"], sim=("xfer",),
                 fuzz=("xfer", "xferconf"), runs=(128, 1600)),
     # C17: (a) leader stickiness as an action property; (b) convergence under a fair, fault-free continuation of random fault histories
-    "C17": plan(["C17_LeaderStickiness", "C17_Converges"], [ELECT_Q], [ELECT_T], ["FixD1", "G_LeaderKnown", "D21"], sim=("core",),
+    "C17": plan(["C17_LeaderStickiness", "C17_Converges"], [ELECT_Q1, ELECT_2N], [ELECT_Q, ELECT_T], ["FixD1", "G_LeaderKnown", "D21"], sim=("core",),
                 fuzz=("fair", "fairconf"), runs=(128, 1600)),
 }
 
